@@ -124,9 +124,13 @@ func (m *Machine) ndStub(name string, args []Value) Value {
 		m.sol().Push()
 		m.sol().Assert(tt.Not(c))
 		model, r := m.currentModel()
+		var realised []drawVal
+		if r == "sat" {
+			realised = m.realise(model)
+		}
 		m.sol().Pop()
 		if r == "sat" {
-			m.events = append(m.events, pathEvent{kind: "assert", label: label, model: model})
+			m.events = append(m.events, pathEvent{kind: "assert", label: label, model: model, realised: realised})
 		} else if r != "unsat" {
 			m.inconclusive++
 			m.events = append(m.events, pathEvent{kind: "inconclusive", label: label})
@@ -151,7 +155,7 @@ func (m *Machine) ndStub(name string, args []Value) Value {
 		return nil
 	case "SigValid":
 		alg, _ := args[0].(Str).concrete()
-		return m.sigValid(alg, m.cellsOf(args[1]), m.cellsOf(args[2]), m.cellsOf(args[3]))
+		return m.sigValid(false, alg, m.cellsOf(args[1]), m.cellsOf(args[2]), m.cellsOf(args[3]))
 	case "Hash":
 		cells := m.idealHash(m.cellsOf(args[0]))
 		node := m.newNode(32)
@@ -159,6 +163,18 @@ func (m *Machine) ndStub(name string, args []Value) Value {
 			node.elems[i] = c
 		}
 		return node
+	case "Ed25519Key":
+		seed := m.newDrawCells(32, "bytes")
+		m.varSeq++
+		priv := m.newNode(64)
+		pub := m.newNode(32)
+		for i := 0; i < 32; i++ {
+			priv.elems[i] = seed[i]
+			p := m.tt.Var(8, fmt.Sprintf("pub%d_%d", m.varSeq, i))
+			priv.elems[32+i] = p
+			pub.elems[i] = p
+		}
+		return Tuple{Slice{priv, 0, 64, 64}, Slice{pub, 0, 32, 32}}
 	case "Freeze":
 		m.frozen = m.nodeSeq
 		return nil
